@@ -38,7 +38,21 @@ def array_params(fi: FunctionInfo) -> List[str]:
         if ann in SCALAR_ANN:
             continue
         out.append(p.arg)
+    if a.vararg is not None:
+        out.append(a.vararg.arg)
     return out
+
+
+def bind_args(callee: FunctionInfo, ev: Event) -> List[Tuple[str, Term]]:
+    """(parameter of the callee, argument term) pairs of a call event; surplus positionals go to `*args`."""
+    a = callee.node.args
+    pos = [p.arg for p in a.posonlyargs + a.args if p.arg != "self"]
+    bound = list(zip(pos, ev.args))
+    if a.vararg is not None:
+        bound += [(a.vararg.arg, x) for x in ev.args[len(pos):]]
+    names = set(callee.params)
+    bound += [(k, v) for k, v in ev.kwargs if k in names]
+    return bound
 
 
 def is_array_valued(t: Term) -> bool:
@@ -153,6 +167,14 @@ class Effects:
                 return self.root_param(t[2][0], depth + 1)
             if f[0] == "attr" and f[2] in VIEW_METHODS:
                 return self.root_param(f[1], depth + 1)
+            return None
+        if tag == "star":
+            return self.root_param(t[1], depth + 1)
+        if tag == "tuple":
+            for x in t[1]:
+                r = self.root_param(x, depth + 1)
+                if r is not None:
+                    return r
             return None
         if tag == "sel":
             return self.root_param(t[2], depth + 1) or self.root_param(t[3], depth + 1)
@@ -303,8 +325,7 @@ class Effects:
                         work.extend(self.funcs.values())
                 if ev.kind == "call":
                     for callee in self.callees(ev, fi):
-                        cparams = [p for p in callee.params if p != "self"]
-                        bound = list(zip(cparams, ev.args)) + [(k, v) for k, v in ev.kwargs if k in cparams]
+                        bound = bind_args(callee, ev)
                         for cp, arg in bound:
                             if borrowed(arg) and (callee.fq, cp) not in self.borrowed_params:
                                 self.borrowed_params.add((callee.fq, cp))
@@ -332,8 +353,7 @@ class Effects:
                         cw = self.writes.get(callee.fq, {})
                         if not cw:
                             continue
-                        cparams = [p for p in callee.params if p != "self"]
-                        bound = list(zip(cparams, ev.args)) + [(k, v) for k, v in ev.kwargs if k in cparams]
+                        bound = bind_args(callee, ev)
                         for cp, arg in bound:
                             if cp in cw:
                                 p = self.root_param(arg)
